@@ -181,6 +181,7 @@ func c02() {
 		run.Require("kernel:children", 20)
 		run.Require("kernel:probes", 1000)
 	}
+	run.RunSecondaryBuild()
 	run.Finish(run.Counter("evaluations"), int64(len(cells)),
 		"single-condition single-entry policies for 8 ops x 6 argument positions x boundary+PRNG operands, each evaluated on the hi/lo neighbourhood product of the operand with the other words set to a verdict-flipping value and to the swapped halves, under both byte orders; distinct = (op, byte order, sign(hi compare), sign(lo compare)) cells hit")
 }
@@ -190,6 +191,9 @@ func c02() {
 // a register reach the filter, and in 386 children, where the high word must
 // read as zero.
 func c02KernelTier(run *vlib.Run, ts []*vlib.Target) {
+	if vlib.SubRun() != "" {
+		return
+	}
 	o, err := vlib.LoadOracles()
 	if err != nil {
 		run.Inconclusive(err.Error())
